@@ -32,7 +32,7 @@ CHECKS = {
          "hash/ordered set and map targets outside; element types u16, (u8,u8), Option<u8>"),
  "C13": ("§6.C13", "Constructor index = declaration position (or case-sensitive name order when sorted, also with a transient constructor that moves under sorting) byte-for-byte; data of E decodes under E extended by appended constructors to the corresponding value; every unknown index (every varint of 1-5 bytes >= n) and the index of a transient constructor decode to Err, never a panic.",
          "catalogue of enums; payload behind an unknown index is zero bytes"),
- "C14": ("§6.C14", "Values differing only in transient fields encode identically (encoder bytes equal the reference that ignores them, for all transient values); decoding sets the declared default (defaults chosen != Default::default()); transient constructors at first/middle/last position give the dedicated error with type and constructor name in both directions; a FieldMadeTransient history encodes.",
+ "C14": ("§6.C14", "Values differing only in transient fields encode identically (encoder bytes equal the reference that ignores them, for all transient values); decoding sets the declared default (defaults chosen != Default::default()); transient constructors at first/middle/last position give the dedicated error with type and constructor name in both directions; a FieldMadeTransient history encodes, including a field made optional and later made transient (every value: Ok and bytes equal to the reference, through the harness's probe sink).",
          "the 'made optional, later made transient' history is outside the catalogue"),
  "C15": ("§6.C15", "Vec<u8>, BytesMut, serialize_to_bytes, serialize_to_byte_vec and a recording user output produce the reference bytes and SizeCalculator reports their count, for catalogue values; SliceInput, OwnedInput and DeserializationContext agree on the result of one symbolic primitive read (9 primitives, full-width symbolic count) after a symbolic skip over every buffer <= 6 bytes, and on where the input ends afterwards.",
          "one operation after a skip (programs of 2-3 operations do not finish: tier=off); sinks on six catalogue types in the quick tier"),
@@ -45,7 +45,7 @@ CHECKS = {
 }
 
 NOT_APPLICABLE = [
- {"property_id": "C09", "reason": "deciding id agreement needs State::store_string on a sequence of writes and reads; CBMC does not constant-fold the niche-encoded StoreStringResult/Entry values and symbolic execution of three deduplicated writes exceeds 900 s / 14 GB (DESIGN §10). Two single facts are checked elsewhere (removed-field name in a header: C02 e_v3; ids restart per call: C18) but do not amount to the property."},
+ {"property_id": "C09", "reason": "deciding id agreement needs State::store_string on a sequence of writes and reads; CBMC does not constant-fold the niche-encoded StoreStringResult/Entry values and symbolic execution of two or three deduplicated writes of a symbolic string exceeds 1000 s / 14 GB, also with the context forgotten instead of dropped (DESIGN §10). Two single facts are checked elsewhere (removed-field name in a header: C02 e_v3; ids restart per call: C18) but do not amount to the property."},
  {"property_id": "C16", "reason": "write_compressed/read_compressed call flate2 -> miniz_oxide directly; neither deflating one byte nor inflating an empty payload leaves CBMC's symbolic execution in 600 s, and the generic Read impl cannot be stubbed without editing the functions under test (DESIGN §10)."},
 ]
 
